@@ -76,7 +76,9 @@ def shard(tier, seed, shard, nshards):
     n = N[tier] // nshards
     for i in range(n):
         rnd = random.Random("%s-%d-%d-%d" % (ID, seed, shard, i))
-        spec = G.gen_cascade(rnd)
+        spec = G.gen_reread(rnd) if i % 6 == 5 else None
+        if spec is None:
+            spec = G.gen_cascade(rnd)
         run_one(st, spec, rnd)
     st.counters["hook_calls"] = dict(hooks.CALLS)
     return st.result()
